@@ -1,7 +1,7 @@
 import Sif.Spec.C09
 /-
   drv_replay: judge of the C09 re-execution family.  One line in, one line out.
-    chk allEqual tag=<t> n=<N> [k=v …] | v₁ … v_N   → `true` iff exactly N (≥ 2) observations, all equal
+    chk allEqual[/<t>] tag=<t> n=<N> [k=v …] | v₁ … v_N   → `true` iff exactly N (≥ 2) observations, all equal
     note …                                          → `ok`
   The observations are what N executions of the REAL application produced for the same block /
   transaction; the predicate is `Sif.Spec.C09.allEqualN`.
@@ -11,7 +11,9 @@ open Sif.Spec.C09
 def judge (toks : List String) : String :=
   match toks with
   | "note" :: _ => "ok"
-  | "chk" :: "allEqual" :: rest =>
+  | "chk" :: p :: rest =>
+    -- the predicate token is `allEqual` or `allEqual/<tag>` (the tag makes bin/check report the first failure per tag)
+    if !(p == "allEqual" || p.startsWith "allEqual/") then "bad-op" else
     let hdr := rest.takeWhile (· ≠ "|")
     let obs := (rest.dropWhile (· ≠ "|")).drop 1
     match (hdr.find? (·.startsWith "n=")).bind (fun s => (s.drop 2).toString.toNat?) with
